@@ -220,15 +220,14 @@ Proof.
   destruct (fv_num start) as [a|] eqn:A; [|reflexivity].
   destruct (fv_num limit) as [b|] eqn:B; [|reflexivity].
   destruct (fv_num step) as [c|] eqn:C; [|reflexivity].
-  f_equal.
   destruct (fv_is_str start || fv_is_str step) eqn:STR.
   - (* a string: float loop on both sides *)
     assert (II : fv_is_int start && fv_is_int step = false).
     { destruct start as [[?|?]|?|], step as [[?|?]|?|]; cbn in *; try reflexivity; discriminate. }
-    rewrite II. rewrite for_im_gen_true by exact Wst.
+    rewrite II. f_equal. rewrite for_im_gen_true by exact Wst.
     apply for_im_is_manual; cbn; auto.
   - rewrite for_im_gen_false. rewrite (for_im_is_manual fuel a b c Ws Wl Wst).
-    destruct (fv_is_int start && fv_is_int step) eqn:II; [reflexivity|].
+    destruct (fv_is_int start && fv_is_int step) eqn:II; [reflexivity|]. f_equal.
     destruct a as [s|x], c as [st|y]; cbn [tofloat]; try reflexivity.
     exfalso. destruct start as [[?|?]|?|], step as [[?|?]|?|]; cbn in *; try discriminate; congruence.
 Qed.
